@@ -177,7 +177,7 @@ def join_cases(rng, full):
                 for p in range(1, 5):
                     polls.append(",".join("%d=%s" % (i, vs[i]) for i in range(n) if when[i] == p))
                 cases.append("%d;%s" % (n, "|".join(polls)))
-    for _ in range(500 if not full else 20000):
+    for _ in range(500 if not full else 100000):
         n = rng.randint(1, 6)
         npolls = rng.randint(1, 6)
         when = [rng.randint(0, npolls) for _ in range(n)]
@@ -233,7 +233,7 @@ def streams(ctx):
     full = ctx.tier != "quick"
     enum = g.c06_enum(ctx.rng, full)
     special = g.c06_special(ctx.rng)
-    rnd = g.c06_random(ctx.rng, 5000 if not full else 150000)
+    rnd = g.c06_random(ctx.rng, 5000 if not full else 300000)
     st = Stream("wrk06", "wrk", special + enum + rnd, monitor=monitor, nontrivial=nontrivial, shrink=g.shrink_case,
                 compare=compare, finding_key=finding_key,
                 describe="special: %d, completion-time x timeout grid: %d, random: %d" % (len(special), len(enum), len(rnd)),
@@ -275,8 +275,9 @@ def custom(ctx):
 # ---------------------------------------------------------------------------------------------
 # end-to-end scenarios of the whole Server through the public API (real threads, real time)
 # ---------------------------------------------------------------------------------------------
-E2E_QUICK = ["forced_held", "stop_twice_forced", "stop_dropped_unpolled", "idle_graceful", "stop_after_done"]
-E2E_THOROUGH = E2E_QUICK + ["graceful_held", "graceful_timeout", "stop_while_paused", "stop_twice_graceful", "two_workers_graceful",
+E2E_QUICK = ["forced_held", "stop_twice_forced", "stop_dropped_unpolled", "idle_graceful", "stop_after_done", "graceful_held",
+             "graceful_timeout"]
+E2E_THOROUGH = E2E_QUICK + ["stop_while_paused", "stop_twice_graceful", "two_workers_graceful",
                             "signal_int", "signal_term", "signal_quit", "signal_term_held"]
 
 
@@ -294,7 +295,7 @@ def e2e(ctx, thorough):
             out = "HANG"
         return name, out
 
-    with ThreadPoolExecutor(max_workers=4) as ex:
+    with ThreadPoolExecutor(max_workers=8) as ex:
         res = list(ex.map(one, names))
     ctx.cov["extra_evaluations"] = ctx.cov.get("extra_evaluations", 0) + len(res)
     ctx.cov["extra_distinct_nontrivial"] = ctx.cov.get("extra_distinct_nontrivial", 0) + len(res)
@@ -304,3 +305,21 @@ def e2e(ctx, thorough):
         if not r.startswith("ok"):
             ctx.report("property-fails", {"stream": "e2e", "scenario": n, "result": r,
                                           "what": "end-to-end scenario %s of the whole Server: %s" % (n, r)}, key="c06:e2e:" + n)
+
+
+def replay(ctx, r):
+    """./check C06 --replay <file>: re-run the recorded case / scenario on the current tree"""
+    if r.get("stream") == "e2e":
+        import subprocess
+        p = subprocess.run([ctx.impl_bin, "e2e"], input=r["scenario"] + "\n", stdout=subprocess.PIPE, text=True, timeout=200, env=common.ENV)
+        out = p.stdout.strip()
+        print("scenario: %s\nresult  : %s" % (r["scenario"], out))
+        return 0 if out.startswith("ok") else 1
+    for st in streams(ctx):
+        if st.name == r.get("stream"):
+            f, i, m = ctx.fails_property(st, r["case"])
+            print("case : %s\nimpl : %s\nmodel: %s\nproperty predicate on implementation trace: %s" % (
+                r["case"], i, m, "FALSE (violation reproduced)" if f else "true"))
+            return 1 if f else 0
+    print("stream %s not found" % r.get("stream"))
+    return 2
